@@ -28,6 +28,16 @@ pub fn select(tier: Tier, seed: u64) -> Vec<(String, Spec)> {
             v.push((format!("{n}__b"), s.bytes_mode()));
         }
     }
+    // every byte value as an if-chain comparison operand (`byte == X`, `X..=Y`): two single-byte
+    // tokens per definition keep the root at <= 2 out-edges, i.e. on the inline-compare path
+    for b in 0..128u8 {
+        v.push((format!("bytecmp{b}"), Spec::new(false, vec![vcore::spec::Pat::btoken(&[b]), vcore::spec::Pat::btoken(&[255 - b])])));
+    }
+    for b in (0..248u8).step_by(8) {
+        let class = format!("[\\x{:02x}-\\x{:02x}]x", b, b + 2);
+        let class2 = format!("[\\x{:02x}-\\x{:02x}\\x{:02x}-\\x{:02x}]y", b + 3, b + 4, b + 6, b + 7);
+        v.push((format!("byterange{b}"), Spec::new(false, vec![vcore::spec::Pat::bregex(class.as_bytes()), vcore::spec::Pat::bregex(class2.as_bytes())])));
+    }
     // first definition of every distinct graph-shape signature met while enumerating the family
     let fam = vcore::enumerate::family(Tier::Quick);
     let shapes: Vec<Option<(String, usize)>> = fam
@@ -41,7 +51,7 @@ pub fn select(tier: Tier, seed: u64) -> Vec<(String, Spec)> {
             }
         })
         .collect();
-    let limit = if tier == Tier::Thorough { 400 } else { 70 };
+    let limit = if tier == Tier::Thorough { 400 } else { 100 };
     let mut seen = BTreeSet::new();
     let mut reps: Vec<(String, Spec)> = vec![];
     // VERIF_SEED rotates which representative of a signature is taken
